@@ -403,6 +403,25 @@ func genFrameRanges(r *Rand, n int, thorough, multi bool, emit func(string)) {
 		rec(nil, 0)
 	}
 	for i := 0; i < n; i++ {
+		if i%97 == 41 {
+			// two stepped components with the same step where the second starts exactly one step
+			// after the WRITTEN end of the first, which is off the first one's grid
+			s := r.Range(2, 12)
+			a := r.Range(-40, 40)
+			k := r.Range(1, 9)
+			off := r.Range(1, s-1)
+			d := 1
+			if r.Bool() {
+				d = -1
+			}
+			b := a + d*(k*s+off)
+			c := b + d*s
+			e := c + d*(r.Range(0, 6)*s+r.Range(0, s-1))
+			mod := r.Pick([]string{"x", "x", ":"})
+			m2 := map[string]string{"x": "x", ":": "c"}[mod]
+			emit(fsOp(r, fmt.Sprintf("%d-%dx%d,%d-%d%s%d", a, b, s, c, e, mod, s), fmt.Sprintf("c:%d:%d:x:%d/c:%d:%d:%s:%d", a, b, s, c, e, m2, s)))
+			continue
+		}
 		if i%499 == 498 {
 			// a stepped component, then a long contiguous one (2049-5000 frames) over it
 			a := r.Range(-40, 40)
